@@ -243,10 +243,10 @@ Proof.
 Qed.
 
 Lemma float_cmp_finite : forall x y : bfloat, is_finite x = true -> is_finite y = true ->
-  float_cmp x y = z_of_ocmp (Bcompare x y).
+  float_cmp_sub x y = z_of_ocmp (Bcompare x y).
 Proof.
   intros x y Fx Fy.
-  unfold float_cmp, float_cmp_sub, float_sub.
+  unfold float_cmp_sub, float_sub.
   pose proof (Bminus_correct 53 1024 (eq_refl _) (eq_refl _) mode_NE x y Fx Fy) as C.
   rewrite (Bcompare_correct 53 1024 x y Fx Fy).
   destruct (Rlt_bool_spec (Rabs (round radix2 (SpecFloat.fexp 53 1024) (round_mode mode_NE) (B2R x - B2R y))) (bpow radix2 1024)) as [Hlt|Hge].
@@ -268,23 +268,222 @@ Proof.
     + rewrite Rcompare_Lt by lra. reflexivity.
 Qed.
 
-Theorem float_cmp_correct : forall x y : bfloat, is_nan x = false -> is_nan y = false ->
-  float_cmp x y = z_of_cmp (float_ord x y).
+(* the sign of the rounded difference is the IEEE comparison (non-NaN operands) *)
+Lemma float_cmp_sub_ocmp : forall x y : bfloat, is_nan x = false -> is_nan y = false ->
+  float_cmp_sub x y = z_of_ocmp (Bcompare x y).
 Proof.
   intros x y Nx Ny.
-  assert (G : float_cmp x y = z_of_ocmp (Bcompare x y)).
-  { destruct (is_finite x) eqn:Fx; destruct (is_finite y) eqn:Fy.
-    - apply float_cmp_finite; assumption.
-    - destruct y as [s|[|]| |s m e H]; try discriminate;
-      destruct x as [sx|sx| |[|] mx ex Hx]; try discriminate; reflexivity.
-    - destruct x as [s|[|]| |s m e H]; try discriminate;
-      destruct y as [sy|sy| |[|] my ey Hy]; try discriminate; reflexivity.
-    - destruct x as [s|[|]| |s m e H]; try discriminate;
-      destruct y as [sy|[|]| |sy my ey Hy]; try discriminate; reflexivity. }
-  rewrite G. unfold float_ord.
+  destruct (is_finite x) eqn:Fx; destruct (is_finite y) eqn:Fy.
+  - apply float_cmp_finite; assumption.
+  - destruct y as [s|[|]| |s m e H]; try discriminate;
+    destruct x as [sx|sx| |[|] mx ex Hx]; try discriminate; reflexivity.
+  - destruct x as [s|[|]| |s m e H]; try discriminate;
+    destruct y as [sy|sy| |[|] my ey Hy]; try discriminate; reflexivity.
+  - destruct x as [s|[|]| |s m e H]; try discriminate;
+    destruct y as [sy|[|]| |sy my ey Hy]; try discriminate; reflexivity.
+Qed.
+
+Theorem float_cmp_sub_correct : forall x y : bfloat, is_nan x = false -> is_nan y = false ->
+  float_cmp_sub x y = z_of_cmp (float_ord x y).
+Proof.
+  intros x y Nx Ny. rewrite (float_cmp_sub_ocmp x y Nx Ny). unfold float_ord.
   rewrite (float_ord_fkey x y Nx Ny). reflexivity.
 Qed.
 End FloatCmp.
+
+(* ================================================================== translated expressions: order abstraction *)
+(* An expression over two operands x y of an ordered scalar type, which only COMPARES them (and, when
+   the algebra allows it, tests the sign of their difference), depends on x and y only through the
+   ordering c of x against y.  `aeval` evaluates an expression on that abstraction; `aeval_sound` shows
+   that the concrete evaluation agrees.  So a translated function is verified for ALL operands by three
+   computations (c = Lt, Eq, Gt), whatever equivalent form the C text has. *)
+Inductive aval := AOp0 | AOp1 | AD01 | AD10 | AC (z : Z).
+
+Definition strict (o : cop) : bool := match o with OpLt | OpGt => true | _ => false end.
+
+Section Abstract.
+  Variable diff_ok : bool.          (* may the sign of x - y be read as the order of x and y (strict tests only) *)
+  Variable c : comparison.          (* the order of operand 0 against operand 1 *)
+
+  Definition acmp2 (o : cop) (a b : aval) : option aval :=
+    match a, b with
+    | AOp0, AOp0 | AOp1, AOp1 => Some (AC (b2z (cop_test o (Some Eq))))
+    | AOp0, AOp1 => Some (AC (b2z (cop_test o (Some c))))
+    | AOp1, AOp0 => Some (AC (b2z (cop_test o (Some (CompOpp c)))))
+    | AD01, AC 0 => if strict o then Some (AC (b2z (cop_test o (Some c)))) else None
+    | AD10, AC 0 => if strict o then Some (AC (b2z (cop_test o (Some (CompOpp c))))) else None
+    | AC 0, AD01 => if strict o then Some (AC (b2z (cop_test o (Some (CompOpp c))))) else None
+    | AC 0, AD10 => if strict o then Some (AC (b2z (cop_test o (Some c)))) else None
+    | AC x, AC y => Some (AC (b2z (cop_test o (Some (x ?= y)))))
+    | _, _ => None
+    end.
+
+  Fixpoint aeval (env : list aval) (e : cexp) : option aval :=
+    match e with
+    | CVar n => nth_error env n
+    | CInt z => Some (AC z)
+    | CSub a b =>
+        match aeval env a, aeval env b with
+        | Some AOp0, Some AOp1 => if diff_ok then Some AD01 else None
+        | Some AOp1, Some AOp0 => if diff_ok then Some AD10 else None
+        | Some (AC x), Some (AC y) => Some (AC (wrap32 (x - y)))
+        | _, _ => None
+        end
+    | CCmp o a b =>
+        match aeval env a, aeval env b with
+        | Some u, Some v => acmp2 o u v
+        | _, _ => None
+        end
+    | CCond k a b =>
+        match aeval env k with
+        | Some (AC z) => if z =? 0 then aeval env b else aeval env a
+        | _ => None
+        end
+    | CNot a => match aeval env a with Some (AC z) => Some (AC (b2z (z =? 0))) | _ => None end
+    | CAnd a b =>
+        match aeval env a, aeval env b with
+        | Some (AC x), Some (AC y) => Some (AC (b2z (negb (x =? 0) && negb (y =? 0))))
+        | _, _ => None
+        end
+    | COr a b =>
+        match aeval env a, aeval env b with
+        | Some (AC x), Some (AC y) => Some (AC (b2z (negb (x =? 0) || negb (y =? 0))))
+        | _, _ => None
+        end
+    | CCast32 a => match aeval env a with Some (AC z) => Some (AC (wrap32 z)) | _ => None end
+    end.
+
+  Fixpoint abind (env : list aval) (locals : list cexp) : option (list aval) :=
+    match locals with
+    | [] => Some env
+    | l :: r => match aeval env l with Some v => abind (env ++ [v]) r | None => None end
+    end.
+  Definition arun (p : cprog) : option Z :=
+    match abind [AOp0; AOp1] (fst p) with
+    | Some env => match aeval env (snd p) with Some (AC z) => Some z | _ => None end
+    | None => None
+    end.
+
+  (* ---- soundness against the concrete evaluation in an algebra *)
+  Variable A : calg.
+  Variables x y : cT A.
+  Hypothesis H01 : c_cmp A x y = Some c.
+  Hypothesis H10 : c_cmp A y x = Some (CompOpp c).
+  Hypothesis H00 : c_cmp A x x = Some Eq.
+  Hypothesis H11 : c_cmp A y y = Some Eq.
+  Hypothesis HD : diff_ok = true -> forall o, strict o = true ->
+    cop_test o (c_cmp A (c_sub A x y) (c_zero A)) = cop_test o (Some c) /\
+    cop_test o (c_cmp A (c_sub A y x) (c_zero A)) = cop_test o (Some (CompOpp c)) /\
+    cop_test o (c_cmp A (c_zero A) (c_sub A x y)) = cop_test o (Some (CompOpp c)) /\
+    cop_test o (c_cmp A (c_zero A) (c_sub A y x)) = cop_test o (Some c).
+
+  Definition rel (cv : cval A) (av : aval) : Prop :=
+    match av, cv with
+    | AOp0, VOp t => t = x
+    | AOp1, VOp t => t = y
+    | AD01, VOp t => t = c_sub A x y /\ diff_ok = true
+    | AD10, VOp t => t = c_sub A y x /\ diff_ok = true
+    | AC z, VC z' => z' = z
+    | _, _ => False
+    end.
+
+  Lemma rel_AC : forall cv z, rel cv (AC z) -> cv = VC z.
+  Proof. intros [t|z'] z H; simpl in H; [contradiction | subst; reflexivity]. Qed.
+
+  Lemma acmp2_sound : forall o u v r cu cv, rel cu u -> rel cv v -> acmp2 o u v = Some r ->
+    exists cr, ceval A [cu; cv] (CCmp o (CVar 0) (CVar 1)) = Some cr /\ rel cr r.
+  Proof.
+    intros o u v r cu cv Ru Rv H. simpl.
+    destruct u as [| | | |zu]; destruct v as [| | | |zv]; simpl in H; try discriminate;
+      destruct cu as [tu|zu']; simpl in Ru; try contradiction;
+      destruct cv as [tv|zv']; simpl in Rv; try contradiction;
+      repeat match goal with
+             | K : _ /\ _ |- _ => destruct K
+             | K : match ?z with Z0 => _ | Zpos _ => _ | Zneg _ => _ end = Some _ |- _ => destruct z; try discriminate
+             | K : (if strict ?o then _ else _) = Some _ |- _ => destruct (strict o) eqn:?; try discriminate
+             end; subst; try discriminate; injection H as <-;
+      try rewrite H00; try rewrite H01; try rewrite H10; try rewrite H11;
+      try match goal with
+          | Dk : diff_ok = true, S : strict ?o = true |- _ =>
+              destruct (HD Dk o S) as (E1 & E2 & E3 & E4); rewrite ?E1, ?E2, ?E3, ?E4
+          end;
+      eexists; split; reflexivity.
+  Qed.
+
+  Lemma aeval_sound : forall e env aenv, Forall2 rel env aenv ->
+    forall av, aeval aenv e = Some av -> exists cv, ceval A env e = Some cv /\ rel cv av.
+  Proof.
+    induction e; intros env aenv F av H; simpl in H.
+    - (* CVar *)
+      revert n H. induction F as [|cv0 av0 env' aenv' R0 F' IHF]; intros [|n] H; simpl in *; try discriminate.
+      + injection H as <-. eauto.
+      + apply IHF. exact H.
+    - injection H as <-. simpl. eexists; split; reflexivity.
+    - (* CSub *)
+      destruct (aeval aenv e1) as [u|] eqn:E1; try discriminate.
+      destruct (aeval aenv e2) as [v|] eqn:E2; [|destruct u; discriminate].
+      destruct (IHe1 env aenv F u E1) as (cu & C1 & R1). destruct (IHe2 env aenv F v E2) as (cv & C2 & R2).
+      simpl. rewrite C1, C2.
+      destruct u as [| | | |zu]; destruct v as [| | | |zv]; try discriminate;
+        destruct cu as [tu|zu']; simpl in R1; try contradiction;
+        destruct cv as [tv|zv']; simpl in R2; try contradiction; subst;
+        try (destruct diff_ok eqn:Dk; try discriminate); injection H as <-;
+        eexists; split; try reflexivity; simpl; auto.
+    - (* CCmp *)
+      destruct (aeval aenv e1) as [u|] eqn:E1; try discriminate.
+      destruct (aeval aenv e2) as [v|] eqn:E2; try discriminate.
+      destruct (IHe1 env aenv F u E1) as (cu & C1 & R1). destruct (IHe2 env aenv F v E2) as (cv & C2 & R2).
+      destruct (acmp2_sound o u v av cu cv R1 R2 H) as (cr & Cr & Rr).
+      exists cr. split; [|exact Rr]. simpl in Cr |- *. rewrite C1, C2. exact Cr.
+    - (* CCond *)
+      destruct (aeval aenv e1) as [u|] eqn:E1; try discriminate.
+      destruct u as [| | | |z]; try discriminate.
+      destruct (IHe1 env aenv F _ E1) as (cu & C1 & R1). apply rel_AC in R1. subst cu.
+      simpl. rewrite C1. destruct (z =? 0); [apply (IHe3 env aenv F av H) | apply (IHe2 env aenv F av H)].
+    - (* CNot *)
+      destruct (aeval aenv e) as [u|] eqn:E1; try discriminate. destruct u as [| | | |z]; try discriminate.
+      destruct (IHe env aenv F _ E1) as (cu & C1 & R1). apply rel_AC in R1. subst cu.
+      injection H as <-. simpl. rewrite C1. eexists; split; reflexivity.
+    - (* CAnd *)
+      destruct (aeval aenv e1) as [u|] eqn:E1; try discriminate. destruct u as [| | | |zu]; try discriminate.
+      destruct (aeval aenv e2) as [v|] eqn:E2; try discriminate. destruct v as [| | | |zv]; try discriminate.
+      destruct (IHe1 env aenv F _ E1) as (cu & C1 & R1). apply rel_AC in R1. subst cu.
+      destruct (IHe2 env aenv F _ E2) as (cv & C2 & R2). apply rel_AC in R2. subst cv.
+      injection H as <-. simpl. rewrite C1, C2. eexists; split; reflexivity.
+    - (* COr *)
+      destruct (aeval aenv e1) as [u|] eqn:E1; try discriminate. destruct u as [| | | |zu]; try discriminate.
+      destruct (aeval aenv e2) as [v|] eqn:E2; try discriminate. destruct v as [| | | |zv]; try discriminate.
+      destruct (IHe1 env aenv F _ E1) as (cu & C1 & R1). apply rel_AC in R1. subst cu.
+      destruct (IHe2 env aenv F _ E2) as (cv & C2 & R2). apply rel_AC in R2. subst cv.
+      injection H as <-. simpl. rewrite C1, C2. eexists; split; reflexivity.
+    - (* CCast32 *)
+      destruct (aeval aenv e) as [u|] eqn:E1; try discriminate. destruct u as [| | | |z]; try discriminate.
+      destruct (IHe env aenv F _ E1) as (cu & C1 & R1). apply rel_AC in R1. subst cu.
+      injection H as <-. simpl. rewrite C1. eexists; split; reflexivity.
+  Qed.
+
+  Lemma abind_sound : forall locals env aenv aenv', Forall2 rel env aenv -> abind aenv locals = Some aenv' ->
+    exists env', cbind A env locals = Some env' /\ Forall2 rel env' aenv'.
+  Proof.
+    induction locals as [|l r IH]; intros env aenv aenv' F H; simpl in *.
+    - injection H as <-. eauto.
+    - destruct (aeval aenv l) as [v|] eqn:E; try discriminate.
+      destruct (aeval_sound l env aenv F v E) as (cv & C & R). rewrite C.
+      apply (IH (env ++ [cv]) (aenv ++ [v]) aenv'); [|exact H].
+      apply Forall2_app; [exact F|]. constructor; [exact R|constructor].
+  Qed.
+
+  Theorem arun_sound : forall p z, arun p = Some z -> crun A p x y = Some z.
+  Proof.
+    intros [locals body] z H. unfold arun, crun in *. simpl in *.
+    destruct (abind [AOp0; AOp1] locals) as [aenv|] eqn:E; try discriminate.
+    assert (F0 : Forall2 rel [VOp x; VOp y] [AOp0; AOp1]) by (repeat constructor).
+    destruct (abind_sound locals _ _ aenv F0 E) as (env & C & F). rewrite C.
+    destruct (aeval aenv body) as [v|] eqn:E2; try discriminate. destruct v as [| | | |z']; try discriminate.
+    injection H as <-. destruct (aeval_sound body env aenv F _ E2) as (cv & C2 & R2).
+    apply rel_AC in R2. subst cv. rewrite C2. reflexivity.
+  Qed.
+End Abstract.
 
 Lemma all2_eq : forall {A} (xs ys : list A), all2 eq xs ys <-> xs = ys.
 Proof.
@@ -476,6 +675,121 @@ Proof.
       apply pair_lift; [apply Hk | apply Hv]; assumption.
 Qed.
 
+(* ---- Int_Cmp: the translated body, verified on the three orderings, is Z order on all of Z *)
+Lemma int_run_by_order : forall p a b z, arun false (a ?= b) p = Some z -> crun int_alg p a b = Some z.
+Proof.
+  intros p a b z H. apply (arun_sound false (a ?= b) int_alg a b); simpl; auto.
+  - rewrite Z.compare_antisym. reflexivity.
+  - rewrite Z.compare_refl. reflexivity.
+  - rewrite Z.compare_refl. reflexivity.
+  - discriminate.
+Qed.
+
+Definition code_is_compare (diff_ok : bool) (code : option cprog) : Prop :=
+  exists p, code = Some p /\ arun diff_ok Lt p = Some (-1) /\ arun diff_ok Eq p = Some 0 /\ arun diff_ok Gt p = Some 1.
+
+(* computed on the code translated from the working tree's src/Num.c (Generated.int_cmp_code) *)
+Lemma int_cmp_code_verified : code_is_compare false int_cmp_code.
+Proof. eexists. split; [reflexivity|]. vm_compute. repeat split. Qed.
+
+Lemma int_cmp_correct : forall a b, int_cmp a b = z_of_cmp (a ?= b).
+Proof.
+  intros a b. destruct int_cmp_code_verified as (p & E & HL & HE & HG).
+  unfold int_cmp. rewrite E.
+  destruct (a ?= b) eqn:C; [rewrite (int_run_by_order p a b 0) | rewrite (int_run_by_order p a b (-1)) | rewrite (int_run_by_order p a b 1)];
+    try reflexivity; rewrite C; assumption.
+Qed.
+
+(* ---- Float_Cmp: same, with the sign of the rounded difference allowed (float_cmp_sub_ocmp) *)
+Lemma float_run_by_order : forall p (x y : bfloat) z, is_nan x = false -> is_nan y = false ->
+  arun true (float_ord x y) p = Some z -> crun float_alg p x y = Some z.
+Proof.
+  intros p x y z Nx Ny H.
+  assert (B : forall u v : bfloat, is_nan u = false -> is_nan v = false -> Bcompare u v = Some (float_ord u v)).
+  { intros u v Nu Nv. unfold float_ord. destruct u as [s|s| |s m e Hb]; try discriminate; destruct v as [s'|s'| |s' m' e' Hb']; try discriminate; reflexivity. }
+  assert (SW : forall u v : bfloat, is_nan u = false -> is_nan v = false -> float_ord v u = CompOpp (float_ord u v)).
+  { intros u v Nu Nv. apply (ok_anti _ _ _ _ (float_ok u Nu) v Nv). }
+  assert (DS : forall u v : bfloat, is_nan u = false -> is_nan v = false -> forall o, strict o = true ->
+            cop_test o (Bcompare (float_sub u v) fzero) = cop_test o (Some (float_ord u v)) /\
+            cop_test o (Bcompare fzero (float_sub u v)) = cop_test o (Some (CompOpp (float_ord u v)))).
+  { intros u v Nu Nv o So. pose proof (float_cmp_sub_ocmp u v Nu Nv) as G. unfold float_cmp_sub in G.
+    rewrite (B u v Nu Nv) in G. rewrite (@Bcompare_swap 53 1024 (float_sub u v) fzero).
+    destruct (Bcompare (float_sub u v) fzero) as [[]|]; destruct (float_ord u v); destruct o; simpl in *; try discriminate; split; reflexivity. }
+  apply (arun_sound true (float_ord x y) float_alg x y); simpl.
+  - apply B; assumption.
+  - rewrite (B y x Ny Nx), (SW x y Nx Ny). reflexivity.
+  - rewrite (B x x Nx Nx). rewrite (ok_refl _ _ _ _ (float_ok x Nx)). reflexivity.
+  - rewrite (B y y Ny Ny). rewrite (ok_refl _ _ _ _ (float_ok y Ny)). reflexivity.
+  - intros _ o So. destruct (DS x y Nx Ny o So) as [D1 D2]. destruct (DS y x Ny Nx o So) as [D3 D4].
+    rewrite (SW x y Nx Ny) in D3, D4. rewrite CompOpp_involutive in D4. repeat split; assumption.
+  - exact H.
+Qed.
+
+Lemma float_cmp_code_verified : code_is_compare true float_cmp_code.
+Proof. eexists. split; [reflexivity|]. vm_compute. repeat split. Qed.
+
+Theorem float_cmp_correct : forall x y : bfloat, is_nan x = false -> is_nan y = false ->
+  float_cmp x y = z_of_cmp (float_ord x y).
+Proof.
+  intros x y Nx Ny. destruct float_cmp_code_verified as (p & E & HL & HE & HG).
+  unfold float_cmp. rewrite E.
+  destruct (float_ord x y) eqn:C;
+    [rewrite (float_run_by_order p x y 0 Nx Ny) | rewrite (float_run_by_order p x y (-1) Nx Ny) | rewrite (float_run_by_order p x y 1 Nx Ny)];
+    try reflexivity; rewrite C; assumption.
+Qed.
+
+(* ---- the predicates of Cmp.c: translated bodies over r = cmp(self, obj) and 0 *)
+Definition pred_abs (i : nat) (c : comparison) : bool :=
+  match i with
+  | 0%nat => match c with Eq => true | _ => false end
+  | 1%nat => match c with Eq => false | _ => true end
+  | 2%nat => match c with Lt => true | _ => false end
+  | 3%nat => match c with Gt => true | _ => false end
+  | 4%nat => match c with Gt => false | _ => true end
+  | _ => match c with Lt => false | _ => true end
+  end.
+
+Lemma pred_default_abs : forall i r, pred_default i r = pred_abs i (r ?= 0).
+Proof.
+  intros i r. destruct i as [|[|[|[|[|i]]]]]; simpl;
+    destruct (Z.compare_spec r 0) as [E|L|G]; subst; try reflexivity;
+    repeat match goal with
+           | |- context [?a =? ?b] => destruct (Z.eqb_spec a b); try lia
+           | |- context [?a <? ?b] => destruct (Z.ltb_spec a b); try lia
+           end; reflexivity.
+Qed.
+
+Lemma pred_codes_verified : exists l, pred_codes = Some l /\
+  forall c, map (aeval false c [AOp0; AOp1]) l = map (fun i => Some (AC (b2z (pred_abs i c)))) [0; 1; 2; 3; 4; 5]%nat.
+Proof. eexists. split; [reflexivity|]. intros []; vm_compute; reflexivity. Qed.
+
+(* each predicate, whatever its C form, is the documented test of the value cmp returned *)
+Lemma pred_val_spec : forall i r, (i < 6)%nat -> pred_val i r = pred_default i r.
+Proof.
+  intros i r Hi. destruct pred_codes_verified as (l & E & HV).
+  unfold pred_val, pred_run. rewrite E.
+  specialize (HV (r ?= 0)).
+  assert (L : length l = 6%nat) by (apply (f_equal (@length _)) in HV; rewrite !map_length in HV; exact HV).
+  destruct (nth_error l i) as [e|] eqn:N; [|apply nth_error_None in N; lia].
+  assert (AE : aeval false (r ?= 0) [AOp0; AOp1] e = Some (AC (b2z (pred_abs i (r ?= 0))))).
+  { apply (f_equal (fun m => nth_error m i)) in HV.
+    rewrite (map_nth_error _ _ _ N) in HV.
+    assert (N2 : nth_error [0; 1; 2; 3; 4; 5]%nat i = Some i) by (do 6 (destruct i as [|i]; [reflexivity|]); lia).
+    rewrite (map_nth_error _ _ _ N2) in HV. injection HV as HV. exact HV. }
+  assert (F0 : Forall2 (rel false int_alg r 0) [@VOp int_alg r; @VOp int_alg 0] [AOp0; AOp1]) by (repeat constructor).
+  assert (H10 : c_cmp int_alg 0 r = Some (CompOpp (r ?= 0))) by (change (Some (0 ?= r) = Some (CompOpp (r ?= 0))); rewrite (Z.compare_antisym r 0); reflexivity).
+  assert (H00 : c_cmp int_alg r r = Some Eq) by (change (Some (r ?= r) = Some Eq); rewrite Z.compare_refl; reflexivity).
+  assert (HD : false = true -> forall o, strict o = true ->
+    cop_test o (c_cmp int_alg (c_sub int_alg r 0) (c_zero int_alg)) = cop_test o (Some (r ?= 0)) /\
+    cop_test o (c_cmp int_alg (c_sub int_alg 0 r) (c_zero int_alg)) = cop_test o (Some (CompOpp (r ?= 0))) /\
+    cop_test o (c_cmp int_alg (c_zero int_alg) (c_sub int_alg r 0)) = cop_test o (Some (CompOpp (r ?= 0))) /\
+    cop_test o (c_cmp int_alg (c_zero int_alg) (c_sub int_alg 0 r)) = cop_test o (Some (r ?= 0))) by discriminate.
+  destruct (aeval_sound false (r ?= 0) int_alg r 0 eq_refl H10 H00 eq_refl HD e _ _ F0 _ AE) as (cv & C & R).
+  apply rel_AC in R. subst cv. rewrite C. rewrite pred_default_abs.
+  destruct (pred_abs i (r ?= 0)); reflexivity.
+Qed.
+
+
 (* ------------------------------------------------------------------ the model computes the reference order *)
 Lemma int_cmp_3way_correct : forall a b, int_cmp_3way a b = z_of_cmp (a ?= b).
 Proof.
@@ -486,10 +800,6 @@ Proof.
   - assert (a <? b = false) by (apply Z.ltb_ge; lia). rewrite H.
     apply Z.ltb_lt in G. rewrite G. reflexivity.
 Qed.
-
-(* uses the rule re-read from src/Num.c: Generated.int_cmp_threeway = true *)
-Lemma int_cmp_correct : forall a b, int_cmp a b = z_of_cmp (a ?= b).
-Proof. intros a b. unfold int_cmp. change int_cmp_threeway with true. cbv iota. apply int_cmp_3way_correct. Qed.
 
 Lemma z_of_cmp_tests : forall c, (z_of_cmp c <? 0) = (match c with Lt => true | _ => false end) /\
                                  (0 <? z_of_cmp c) = (match c with Gt => true | _ => false end).
@@ -607,7 +917,8 @@ Theorem cmp_predicates : forall s a b, dom s a -> dom s b ->
   v_ge a b  = Some (match value_ord a b with Lt => false | _ => true end).
 Proof.
   intros s a b Da Db. unfold v_le, v_ge, v_neq, v_eq, v_lt, v_gt.
-  rewrite (value_cmp_is_order a s b Da Db). destruct (value_ord a b); simpl; repeat split; reflexivity.
+  rewrite (value_cmp_is_order a s b Da Db). simpl. rewrite !pred_val_spec by lia.
+  destruct (value_ord a b); simpl; repeat split; reflexivity.
 Qed.
 
 (* and as coded they are tests of whatever cmp returns *)
@@ -615,7 +926,8 @@ Theorem cmp_predicates_as_coded : forall a b c, value_cmp a b = Some c ->
   v_eq a b = Some (c =? 0) /\ v_neq a b = Some (negb (c =? 0)) /\ v_lt a b = Some (c <? 0) /\
   v_gt a b = Some (0 <? c) /\ v_le a b = Some (negb (0 <? c)) /\ v_ge a b = Some (negb (c <? 0)).
 Proof.
-  intros a b c H. unfold v_le, v_ge, v_neq, v_eq, v_lt, v_gt. rewrite H. simpl. repeat split; reflexivity.
+  intros a b c H. unfold v_le, v_ge, v_neq, v_eq, v_lt, v_gt. rewrite H. simpl.
+  rewrite !pred_val_spec by lia. simpl. repeat split; reflexivity.
 Qed.
 
 (* ------------------------------------------------------------------ what the reference order is *)
@@ -703,10 +1015,31 @@ Qed.
    Array_Cmp / List_Cmp / Tuple_Cmp, the loop of Tree_Cmp (key, then value), the six predicate
    definitions and the instance-else-memcmp rule of Cmp.c.  A changed shape leaves the definition
    out of Generated.v and this file no longer compiles (= broken obligation). *)
+(* cmp(): the outcome table computed from the C text (16 assignments of: instance present, cmp member
+   present, same type, size non-zero) is the documented dispatch: the instance when it has a cmp, else
+   memcmp over size(type_of(self)) for two objects of one type of non-zero size, else TypeError *)
+Definition cmp_dispatch_spec (hc hm t s : bool) : nat :=
+  if hc && hm then 0%nat else if t && s then 1%nat else 2%nat.
+Definition cmp_dispatch_ok (tbl : option (list (bool * bool * bool * bool * nat))) : bool :=
+  match tbl with
+  | Some l => (length l =? 16)%nat &&
+              forallb (fun r => match r with (hc, hm, t, s, o) => (o =? cmp_dispatch_spec hc hm t s)%nat end) l &&
+              forallb (fun q => existsb (fun r => match r, q with (hc, hm, t, s, _), (hc', hm', t', s') =>
+                                   Bool.eqb hc hc' && Bool.eqb hm hm' && Bool.eqb t t' && Bool.eqb s s' end) l)
+                      (list_prod (list_prod (list_prod [false; true] [false; true]) [false; true]) [false; true])
+  | None => false
+  end.
+
 Theorem source_shapes :
-  int_cmp_threeway = true /\ int_cmp_shape_ok = true /\ float_cmp_shape_ok = true /\ seq_cmp_shape_ok = true /\ tree_cmp_shape_ok = true /\
-  cmp_predicates_shape_ok = true /\ cmp_default_shape_ok = true.
-Proof. repeat split. Qed.
+  code_is_compare false int_cmp_code /\ code_is_compare true float_cmp_code /\
+  (exists l, pred_codes = Some l /\
+     forall c, map (aeval false c [AOp0; AOp1]) l = map (fun i => Some (AC (b2z (pred_abs i c)))) [0; 1; 2; 3; 4; 5]%nat) /\
+  seq_cmp_shape_ok = true /\ tree_cmp_shape_ok = true /\ cmp_dispatch_ok cmp_dispatch_table = true.
+Proof.
+  split; [exact int_cmp_code_verified|]. split; [exact float_cmp_code_verified|]. split; [exact pred_codes_verified|].
+  repeat split.
+Qed.
+(* end of source_shapes *)
 
 (* ================================================================== a Tree keyed through cmp finds its keys *)
 Section TreeLookup.
